@@ -26,11 +26,29 @@ package main
 //   for loops         m_loop fuel ...: fuel = 65 + the sum of the lengths of the []byte parameters
 //   everything else   exactly as translate2.go (integers with explicit wrap, ordered switch, ...)
 //
+// v4 (stateful objects):
+//   struct used through a pointer receiver ("object"): a record threaded through its methods.  A []byte
+//                     field is a slice value (the heap is shared).  A [N]byte field is a slice HANDLE
+//                     (array, off, N, N) of a heap cell owned by the object: c.buf[i], c.buf[i] = v,
+//                     c.buf[i:j], c.buf[:] (bounds against N), copy(c.buf[k:], p) act on that cell and alias
+//                     correctly; c.buf = [N]byte{...} overwrites the cell; reading c.buf as a value copies it.
+//                     A VALUE of such a struct (copy) is rejected.  Structs used only as values keep arrays
+//                     as list Z values (ws.Header).  Fields of types outside the subset are LEFT OUT of the
+//                     record and any use of them is rejected.
+//   recv.m(args)      a call of another pointer-receiver method on the receiver: the callee takes the record
+//                     and returns the updated one, which rebinds the receiver (statement level only)
+//   io.Reader         a STATEFUL oracle (GoMem.g_reader): r.Read(p) / io.ReadFull(r, p) return the reader after
+//                     the call, which is stored back into the variable / field r was read from; io.Reader
+//                     parameters are returned as additional last results.  io.ReadFull = GoMem.m_io_read_full
+//   make([]byte,n,c)  m_make_cap;  copy(a[i:j], src) into an assignable [N]byte VALUE = v_copy_into
+//
 // Everything outside the subset stops the translator with
 //     translate3: unsupported construct <file>:<line>:<col>: <what>
 // and exit status 1 — it never guesses.  In particular: append, 3-index slices, closures, goroutines,
-// pointers other than a method receiver, slices stored in structs, slices of arrays that could be
-// written through, maps, channels, defer, labels, goto, fallthrough.
+// pointers other than a method receiver, values (copies) of pointer-receiver objects with array fields, slices of
+// LOCAL arrays that could be written through (other than as the destination of copy), interface method calls
+// other than io.Writer.Write / io.Reader.Read, calls into other packages, struct literals, maps, channels, defer,
+// labels, goto, fallthrough, panic.
 //
 // Trust: the translator's reading of Go and lib/GoMem.v are part of the trusted base of the
 // C0x_source_* theorems proved in proofs/Translated3Ok.v; the differential runs on the compiled
@@ -75,6 +93,10 @@ var x3Roots = [][2]string{
 	{"", "PutCloseFrameBody"}, {"", "NewCloseFrameBody"},
 	{"", "ParseCloseFrameData"}, {"", "ParseCloseFrameDataUnsafe"},
 	{"wsutil", "decode"}, {"wsutil", "UTF8Reader.Read"},
+	// v4: stateful objects (slices and heap-resident array fields in structs, methods calling methods)
+	{"wsflate", "cbuf.Write"}, {"wsflate", "cbuf.reset"},
+	{"", "ReadHeader"},
+	{"wsutil", "Writer.Size"}, {"wsutil", "Writer.Available"}, {"wsutil", "Writer.Buffered"},
 }
 
 // ---------------------------------------------------------------- loading
@@ -102,12 +124,41 @@ type x3 struct {
 	real    types.ImporterFrom
 	pkgvars map[string]string
 	pvOrder []string
+	objType map[string]bool // struct types used as pointer receivers: [N]byte fields live in the heap
+	useEOF  bool            // io.ReadFull is used: print g3_is_eof
 }
 
 type x3Struct struct {
 	name   string // Coq suffix
 	goName string
 	fields []x3Field
+	obj    bool // a pointer-receiver object: its [N]byte fields are slice handles to heap cells
+	hasArr bool // has a [N]byte field
+	skipped []string // fields of unsupported types: not in the record
+}
+
+func (s *x3Struct) field(name string) (x3Field, bool) {
+	for _, f := range s.fields {
+		if f.name == name {
+			return f, true
+		}
+	}
+	return x3Field{}, false
+}
+
+// does coqType accept t?
+func (x *x3) supportedType(t types.Type, pos token.Pos) (ok bool) {
+	defer func() {
+		if r := recover(); r != nil {
+			if _, isX := r.(xlErr); isX {
+				ok = false
+				return
+			}
+			panic(r)
+		}
+	}()
+	x.coqType(t, pos)
+	return true
 }
 
 type x3Field struct {
@@ -163,7 +214,7 @@ func x3Run() (out string, err error) {
 	file, _ := fn.FileLine(fn.Entry())
 	root := filepath.Dir(file)
 	x := &x3{fset: token.NewFileSet(), root: root, pkgs: map[string]*x3Pkg{}, funcs: map[string]*x3Func{},
-		gerrs: map[string]bool{}, structs: map[string]*x3Struct{}, pkgvars: map[string]string{}}
+		gerrs: map[string]bool{}, structs: map[string]*x3Struct{}, pkgvars: map[string]string{}, objType: map[string]bool{}}
 	x.real = importer.ForCompiler(x.fset, "source", nil).(types.ImporterFrom)
 	gm, e := os.ReadFile(filepath.Join(root, "go.mod"))
 	if e != nil {
@@ -372,6 +423,16 @@ func x3ArrayLen(t types.Type) (int64, bool) {
 	return a.Len(), true
 }
 
+// [N]byte
+func x3IsByteArray(t types.Type) bool {
+	a, ok := t.Underlying().(*types.Array)
+	if !ok {
+		return false
+	}
+	b, ok := a.Elem().Underlying().(*types.Basic)
+	return ok && b.Kind() == types.Uint8
+}
+
 // io.Writer / io.Reader
 func x3IoKind(t types.Type) string {
 	n, ok := t.(*types.Named)
@@ -410,11 +471,23 @@ func (x *x3) coqType(t types.Type, pos token.Pos) string {
 	}
 	if n, ok := t.(*types.Named); ok {
 		if _, ok := n.Underlying().(*types.Struct); ok {
-			return "g3_" + x.useStruct(n, pos).name
+			s := x.useStruct(n, pos)
+			if s.obj && s.hasArr {
+				x.fail(pos, "struct %s is a pointer-receiver object with heap-resident array fields; a VALUE of it (copy) is not supported", s.goName)
+			}
+			return "g3_" + s.name
 		}
 	}
 	x.fail(pos, "type %s", t.String())
 	return ""
+}
+
+// the Coq type of a field: a [N]byte field of a pointer-receiver object is a slice handle (array, 0, N, N)
+func (x *x3) fieldCoqType(s *x3Struct, f x3Field) string {
+	if s.obj && x3IsByteArray(f.typ) {
+		return "slice"
+	}
+	return x.coqType(f.typ, token.NoPos)
 }
 
 func (x *x3) useStruct(n *types.Named, pos token.Pos) *x3Struct {
@@ -423,7 +496,7 @@ func (x *x3) useStruct(n *types.Named, pos token.Pos) *x3Struct {
 		return s
 	}
 	st := n.Underlying().(*types.Struct)
-	s := &x3Struct{goName: key, name: n.Obj().Name()}
+	s := &x3Struct{goName: key, name: n.Obj().Name(), obj: x.objType[key]}
 	if n.Obj().Pkg().Path() != x.modpath {
 		s.name = n.Obj().Pkg().Name() + "_" + n.Obj().Name()
 	}
@@ -431,9 +504,17 @@ func (x *x3) useStruct(n *types.Named, pos token.Pos) *x3Struct {
 	for i := 0; i < st.NumFields(); i++ {
 		f := st.Field(i)
 		if f.Embedded() {
-			x.fail(pos, "struct %s has an embedded field", key)
+			s.skipped = append(s.skipped, f.Name())
+			continue
 		}
-		x.coqType(f.Type(), pos)
+		if !x.supportedType(f.Type(), pos) {
+			// a field of a type outside the subset is left out of the record; any use of it is rejected
+			s.skipped = append(s.skipped, f.Name())
+			continue
+		}
+		if x3IsByteArray(f.Type()) {
+			s.hasArr = true
+		}
 		s.fields = append(s.fields, x3Field{f.Name(), f.Type()})
 	}
 	x.stOrder = append(x.stOrder, key)
@@ -467,6 +548,9 @@ func (x *x3) zero(t types.Type, pos token.Pos) string {
 	if n, ok := t.(*types.Named); ok {
 		if _, ok := n.Underlying().(*types.Struct); ok {
 			s := x.useStruct(n, pos)
+			if s.obj && s.hasArr {
+				x.fail(pos, "zero value of the object type %s (its array fields need heap cells)", s.goName)
+			}
 			parts := []string{"g3_mk_" + s.name}
 			for _, f := range s.fields {
 				parts = append(parts, x.zero(f.typ, pos))
@@ -511,6 +595,7 @@ type x3Func struct {
 	results []types.Type
 	recv    *types.Var // pointer receiver, passed and returned as a value (state passing)
 	recvT   *types.Named
+	readers []*types.Var // io.Reader parameters: stateful, returned (updated) after the receiver
 	body    string
 	loops   int
 	notes   []string // alias assumptions
@@ -529,6 +614,7 @@ type x3Fx struct {
 	named  []*types.Var
 	depth  int      // number of enclosing loops
 	loops  []*x3Loop // enclosing loops
+	lazy   int      // > 0 inside an operand that is evaluated conditionally (rebinding is lost there)
 }
 
 type x3Loop struct {
@@ -595,21 +681,37 @@ func (x *x3) function(p *x3Pkg, d *ast.FuncDecl) *x3Func {
 		if rv.Name() == "" || rv.Name() == "_" {
 			x.fail(d.Pos(), "unnamed receiver")
 		}
+		skey := nt.Obj().Pkg().Name() + "." + nt.Obj().Name()
+		if old, ok := x.structs[skey]; ok && !old.obj && old.hasArr {
+			x.fail(d.Pos(), "struct %s is used both as a value (arrays are values) and as a pointer receiver (arrays live in the heap)", skey)
+		}
+		x.objType[skey] = true
+		if old, ok := x.structs[skey]; ok {
+			old.obj = true
+		}
 		x.useStruct(nt, d.Pos())
 		f.recv, f.recvT = rv, nt
 		fx.name(rv)
-		// the receiver may only be used as  u.field  (never copied, compared, passed on or reassigned)
+		// the receiver may only be used as  u.field  or  u.method(args)  (never copied, compared, passed
+		// on or reassigned)
+		var calls = map[*ast.SelectorExpr]bool{}
 		ast.Inspect(d.Body, func(n ast.Node) bool {
+			if ce, ok := n.(*ast.CallExpr); ok {
+				if se, ok := ce.Fun.(*ast.SelectorExpr); ok {
+					calls[se] = true
+				}
+			}
 			if se, ok := n.(*ast.SelectorExpr); ok {
 				if id, ok := se.X.(*ast.Ident); ok && p.info.Uses[id] == rv {
-					if sel := p.info.Selections[se]; sel == nil || sel.Kind() != types.FieldVal {
-						x.fail(se.Pos(), "use of the receiver other than as %s.field", rv.Name())
+					sel := p.info.Selections[se]
+					if sel == nil || !(sel.Kind() == types.FieldVal || sel.Kind() == types.MethodVal && calls[se]) {
+						x.fail(se.Pos(), "use of the receiver other than as %s.field or %s.method(...)", rv.Name(), rv.Name())
 					}
 					return false
 				}
 			}
 			if id, ok := n.(*ast.Ident); ok && p.info.Uses[id] == rv {
-				x.fail(id.Pos(), "use of the receiver other than as %s.field", rv.Name())
+				x.fail(id.Pos(), "use of the receiver other than as %s.field or %s.method(...)", rv.Name(), rv.Name())
 			}
 			return true
 		})
@@ -618,6 +720,9 @@ func (x *x3) function(p *x3Pkg, d *ast.FuncDecl) *x3Func {
 		v := sig.Params().At(i)
 				x.coqType(v.Type(), v.Pos())
 		f.params = append(f.params, v)
+		if x3IoKind(v.Type()) == "reader" && v.Name() != "" && v.Name() != "_" {
+			f.readers = append(f.readers, v)
+		}
 		if v.Name() == "" || v.Name() == "_" {
 			fx.names[v] = fmt.Sprintf("v_unused%d", i+1)
 			fx.used[fx.names[v]] = true
@@ -692,6 +797,9 @@ func (fx *x3Fx) retTuple(vals []string) string {
 	if fx.f.recv != nil {
 		all = append(all, fx.names[fx.f.recv])
 	}
+	for _, r := range fx.f.readers {
+		all = append(all, fx.names[r])
+	}
 	switch len(all) {
 	case 0:
 		return "tt"
@@ -708,6 +816,9 @@ func (fx *x3Fx) retType() string {
 	}
 	if fx.f.recv != nil {
 		ts = append(ts, "g3_"+fx.x.structs[fx.f.recvT.Obj().Pkg().Name()+"."+fx.f.recvT.Obj().Name()].name)
+	}
+	for range fx.f.readers {
+		ts = append(ts, "g_reader g_error")
 	}
 	switch len(ts) {
 	case 0:
@@ -850,7 +961,16 @@ func (fx *x3Fx) expr(e ast.Expr) string {
 			if !ok || fx.f.recv == nil || info.Uses[id] != fx.f.recv {
 				x.fail(e.Pos(), "selector %s through a pointer that is not the method receiver", e.Sel.Name)
 			}
+			if h, _, isHeap := fx.heapArr(e); isHeap {
+				// the array as a VALUE: a copy of the cell as it is now
+				t := fx.fresh()
+				fx.bindTo(t, "m_bytes "+h)
+				return t
+			}
 			s := x.useStruct(fx.f.recvT, e.Pos())
+			if _, has := s.field(e.Sel.Name); !has {
+				x.fail(e.Pos(), "field %s of %s has a type outside the subset", e.Sel.Name, s.goName)
+			}
 			return fmt.Sprintf("(g3_%s_%s %s)", s.name, e.Sel.Name, fx.names[fx.f.recv])
 		}
 		n, ok := sel.Recv().(*types.Named)
@@ -858,6 +978,9 @@ func (fx *x3Fx) expr(e ast.Expr) string {
 			x.fail(e.Pos(), "selector on a value of type %s", sel.Recv().String())
 		}
 		s := x.useStruct(n, e.Pos())
+		if _, has := s.field(e.Sel.Name); !has {
+			x.fail(e.Pos(), "field %s of %s has a type outside the subset", e.Sel.Name, s.goName)
+		}
 		return fmt.Sprintf("(g3_%s_%s %s)", s.name, e.Sel.Name, fx.expr(e.X))
 	case *ast.UnaryExpr:
 		return fx.unary(e)
@@ -867,6 +990,12 @@ func (fx *x3Fx) expr(e ast.Expr) string {
 		rs := fx.call(e, 1)
 		return rs[0]
 	case *ast.IndexExpr:
+		if h, _, isHeap := fx.heapArr(e.X); isHeap {
+			i := fx.intExpr(e.Index)
+			t := fx.fresh()
+			fx.bindTo(t, fmt.Sprintf("m_index %s %s", h, i))
+			return t
+		}
 		tx := fx.typeOf(e.X)
 		_, isArr := x3ArrayLen(tx)
 		if !x3IsBytes(tx) && !isArr && !x3IsString(tx) {
@@ -884,6 +1013,19 @@ func (fx *x3Fx) expr(e ast.Expr) string {
 	case *ast.SliceExpr:
 		if e.Slice3 {
 			x.fail(e.Pos(), "3-index slice expression")
+		}
+		if h, n, isHeap := fx.heapArr(e.X); isHeap {
+			// a slice of a heap-resident array field: shares the cell (bounds against the array length)
+			lo, hi := "0", fmt.Sprintf("(%d (* len of the array *))", n)
+			if e.Low != nil {
+				lo = fx.intExpr(e.Low)
+			}
+			if e.High != nil {
+				hi = fx.intExpr(e.High)
+			}
+			t := fx.fresh()
+			fx.bindTo(t, fmt.Sprintf("m_slice %s %s %s", h, lo, hi))
+			return t
 		}
 		tx := fx.typeOf(e.X)
 		if x3IsString(tx) {
@@ -917,6 +1059,37 @@ func (fx *x3Fx) expr(e ast.Expr) string {
 	return ""
 }
 
+// e = recv.f with f a [N]byte field of the pointer-receiver object: the slice handle of its heap cell
+func (fx *x3Fx) heapArr(e ast.Expr) (handle string, n int64, ok bool) {
+	for {
+		p, isP := e.(*ast.ParenExpr)
+		if !isP {
+			break
+		}
+		e = p.X
+	}
+	se, isSel := e.(*ast.SelectorExpr)
+	if !isSel || fx.f.recv == nil {
+		return "", 0, false
+	}
+	id, isId := se.X.(*ast.Ident)
+	if !isId || fx.p.info.Uses[id] != fx.f.recv {
+		return "", 0, false
+	}
+	sel := fx.p.info.Selections[se]
+	if sel == nil || sel.Kind() != types.FieldVal || len(sel.Index()) != 1 || !x3IsByteArray(sel.Type()) {
+		return "", 0, false
+	}
+	s := fx.x.useStruct(fx.f.recvT, e.Pos())
+	if !s.obj {
+		return "", 0, false
+	}
+	if _, has := s.field(se.Sel.Name); !has {
+		fx.x.fail(e.Pos(), "field %s of %s has a type outside the subset", se.Sel.Name, s.goName)
+	}
+	return fmt.Sprintf("(g3_%s_%s %s)", s.name, se.Sel.Name, fx.names[fx.f.recv]), sel.Type().Underlying().(*types.Array).Len(), true
+}
+
 // s[i:j] of a string or an array as a VALUE (list Z)
 func (fx *x3Fx) valueSlice(e *ast.SliceExpr) string {
 	b := fx.expr(e.X)
@@ -946,6 +1119,9 @@ func (fx *x3Fx) readOnly(e ast.Expr) (term string, isList bool) {
 		return fx.expr(e), true
 	}
 	if se, ok := e.(*ast.SliceExpr); ok && !se.Slice3 {
+		if _, _, isHeap := fx.heapArr(se.X); isHeap {
+			return fx.expr(e), false
+		}
 		if _, isArr := x3ArrayLen(fx.typeOf(se.X)); isArr {
 			return fx.valueSlice(se), true
 		}
@@ -1192,7 +1368,9 @@ func (fx *x3Fx) binary(e *ast.BinaryExpr) string {
 	switch e.Op {
 	case token.LAND, token.LOR:
 		a := fx.expr(e.X)
+		fx.lazy++
 		pre, b := fx.capture(func() string { return fx.expr(e.Y) })
+		fx.lazy--
 		if len(pre) == 0 {
 			if e.Op == token.LAND {
 				return "(" + a + " && " + b + ")"
@@ -1360,8 +1538,15 @@ func (fx *x3Fx) call(e *ast.CallExpr, want int) []string {
 				if len(e.Args) == 2 && info.Types[e.Args[0]].IsType() && x3IsBytes(info.Types[e.Args[0]].Type) {
 					return eff("m_make " + fx.intExpr(e.Args[1]))
 				}
+				if len(e.Args) == 3 && info.Types[e.Args[0]].IsType() && x3IsBytes(info.Types[e.Args[0]].Type) {
+					n := fx.intExpr(e.Args[1])
+					return eff("m_make_cap " + n + " " + fx.intExpr(e.Args[2]))
+				}
 			case "copy":
 				if len(e.Args) == 2 && x3IsBytes(fx.typeOf(e.Args[0])) {
+					if r, ok := fx.copyIntoArrayValue(e, want); ok {
+						return r
+					}
 					dst := fx.expr(e.Args[0])
 					srcT, isList := fx.readOnly(e.Args[1])
 					if isList {
@@ -1384,6 +1569,9 @@ func (fx *x3Fx) call(e *ast.CallExpr, want int) []string {
 		}
 		if g.recv != nil {
 			x.fail(e.Pos(), "call of method %s", g.key)
+		}
+		if len(g.readers) > 0 {
+			x.fail(e.Pos(), "call of %s, which has io.Reader parameters", g.key)
 		}
 		if len(g.params) != len(e.Args) {
 			x.fail(e.Pos(), "call with %d arguments to a function of %d parameters", len(e.Args), len(g.params))
@@ -1417,10 +1605,62 @@ func (fx *x3Fx) call(e *ast.CallExpr, want int) []string {
 		fx.bindTo(lhs, strings.Join(args, " "))
 		return names
 	case *ast.SelectorExpr:
+		// recv.method(args): the callee takes the receiver record and returns the updated one
+		if id, ok := fe.X.(*ast.Ident); ok && fx.f.recv != nil && info.Uses[id] == fx.f.recv {
+			sel := info.Selections[fe]
+			if sel == nil || sel.Kind() != types.MethodVal {
+				x.fail(e.Pos(), "call of a field of the receiver")
+			}
+			d, ok := fx.p.funcs[fx.f.recvT.Obj().Name()+"."+fe.Sel.Name]
+			if !ok {
+				x.fail(e.Pos(), "method %s of %s is not declared in the package", fe.Sel.Name, fx.f.recvT.Obj().Name())
+			}
+			if fx.lazy > 0 {
+				x.fail(e.Pos(), "method call on the receiver inside a conditionally evaluated operand")
+			}
+			g := x.function(fx.p, d)
+			if g.recv == nil || g.recvT != fx.f.recvT {
+				x.fail(e.Pos(), "method %s does not have the same pointer receiver type", g.key)
+			}
+			if len(g.readers) > 0 {
+				x.fail(e.Pos(), "call of %s, which has io.Reader parameters", g.key)
+			}
+			if len(g.params) != len(e.Args) {
+				x.fail(e.Pos(), "call with %d arguments to a method of %d parameters", len(e.Args), len(g.params))
+			}
+			args := []string{g.coqName}
+			recvName := fx.names[fx.f.recv]
+			var argTerms []string
+			for i, a := range e.Args {
+				argTerms = append(argTerms, fx.exprT(a, g.params[i].Type()))
+			}
+			args = append(args, recvName)
+			args = append(args, argTerms...)
+			if want != 0 && want != len(g.results) {
+				x.fail(e.Pos(), "call of %s used as %d values", g.key, want)
+			}
+			var names, pat []string
+			for range g.results {
+				t := fx.fresh()
+				names = append(names, t)
+				if want == 0 {
+					pat = append(pat, "_")
+				} else {
+					pat = append(pat, t)
+				}
+			}
+			pat = append(pat, recvName)
+			lhs := pat[0]
+			if len(pat) > 1 {
+				lhs = "'(" + strings.Join(pat, ", ") + ")"
+			}
+			fx.bindTo(lhs, strings.Join(args, " "))
+			return names
+		}
 		// w.Write(p) / r.Read(p) on a value of type io.Writer / io.Reader: oracles
 		if sel := info.Selections[fe]; sel != nil && sel.Kind() == types.MethodVal {
 			kind := x3IoKind(sel.Recv())
-			if (kind == "writer" && fe.Sel.Name == "Write" || kind == "reader" && fe.Sel.Name == "Read") && len(e.Args) == 1 {
+			if kind == "writer" && fe.Sel.Name == "Write" && len(e.Args) == 1 {
 				if want != 2 && want != 0 {
 					x.fail(e.Pos(), "call of %s used as %d values", fe.Sel.Name, want)
 				}
@@ -1430,7 +1670,27 @@ func (fx *x3Fx) call(e *ast.CallExpr, want int) []string {
 				if want == 2 {
 					n, er = fx.fresh(), fx.fresh()
 				}
-				fx.bindTo("'("+n+", "+er+")", "m_io_"+strings.ToLower(fe.Sel.Name)+" "+o+" "+p)
+				fx.bindTo("'("+n+", "+er+")", "m_io_write "+o+" "+p)
+				return []string{n, er}
+			}
+			if kind == "reader" && fe.Sel.Name == "Read" && len(e.Args) == 1 {
+				// a reader is a stateful object: the call returns the reader after the call, which is
+				// stored back into the variable / field it was read from
+				if want != 2 && want != 0 {
+					x.fail(e.Pos(), "call of %s used as %d values", fe.Sel.Name, want)
+				}
+				if fx.lazy > 0 {
+					x.fail(e.Pos(), "Read inside a conditionally evaluated operand")
+				}
+				o := fx.expr(fe.X)
+				p := fx.expr(e.Args[0])
+				n, er := "_", "_"
+				if want == 2 {
+					n, er = fx.fresh(), fx.fresh()
+				}
+				rn := fx.fresh()
+				fx.bindTo("'("+n+", "+er+", "+rn+")", "m_io_read "+o+" "+p)
+				*fx.pre = append(*fx.pre, fx.store(fe.X, rn)...)
 				return []string{n, er}
 			}
 			if kind != "" {
@@ -1498,6 +1758,30 @@ func (fx *x3Fx) call(e *ast.CallExpr, want int) []string {
 			x.fail(e.Pos(), "call of %s: not a function", key)
 		}
 		switch key {
+		case "io.ReadFull":
+			// library function lib/GoMem.v m_io_read_full (io.ReadAtLeast's loop over the reader oracle)
+			if len(e.Args) != 2 || x3IoKind(fx.typeOf(e.Args[0])) != "reader" || !x3IsBytes(fx.typeOf(e.Args[1])) {
+				x.fail(e.Pos(), "call of io.ReadFull")
+			}
+			if want != 2 && want != 0 {
+				x.fail(e.Pos(), "call of io.ReadFull used as %d values", want)
+			}
+			if fx.lazy > 0 {
+				x.fail(e.Pos(), "io.ReadFull inside a conditionally evaluated operand")
+			}
+			o := fx.expr(e.Args[0])
+			p := fx.expr(e.Args[1])
+			n, er := "_", "_"
+			if want == 2 {
+				n, er = fx.fresh(), fx.fresh()
+			}
+			rn := fx.fresh()
+			x.gerrs["E_io_EOF"] = true
+			x.gerrs["E_io_ErrUnexpectedEOF"] = true
+			x.useEOF = true
+			fx.bindTo("'("+n+", "+er+", "+rn+")", "m_io_read_full E_io_EOF E_io_ErrUnexpectedEOF g3_is_eof "+o+" "+p)
+			*fx.pre = append(*fx.pre, fx.store(e.Args[0], rn)...)
+			return []string{n, er}
 		case "fmt.Errorf":
 			// only the panics of the arguments matter; the message is not modelled
 			for i, a := range e.Args {
@@ -1516,6 +1800,51 @@ func (fx *x3Fx) call(e *ast.CallExpr, want int) []string {
 	}
 	x.fail(e.Pos(), "call of %T", e.Fun)
 	return nil
+}
+
+// copy(a[lo:hi], src) where a is an assignable [N]byte VALUE (a local array or a field of a local struct
+// value): the temporary slice cannot escape, so the copy is an update of the value
+func (fx *x3Fx) copyIntoArrayValue(e *ast.CallExpr, want int) ([]string, bool) {
+	d := e.Args[0]
+	for {
+		p, ok := d.(*ast.ParenExpr)
+		if !ok {
+			break
+		}
+		d = p.X
+	}
+	se, ok := d.(*ast.SliceExpr)
+	if !ok || se.Slice3 {
+		return nil, false
+	}
+	if _, _, isHeap := fx.heapArr(se.X); isHeap || !x3IsByteArray(fx.typeOf(se.X)) {
+		return nil, false
+	}
+	if want > 1 {
+		fx.x.fail(e.Pos(), "call used as %d values", want)
+	}
+	if fx.lazy > 0 {
+		fx.x.fail(e.Pos(), "copy into an array value inside a conditionally evaluated operand")
+	}
+	n := fx.typeOf(se.X).Underlying().(*types.Array).Len()
+	a := fx.expr(se.X)
+	lo, hi := "0", fmt.Sprintf("(%d (* len of the array *))", n)
+	if se.Low != nil {
+		lo = fx.intExpr(se.Low)
+	}
+	if se.High != nil {
+		hi = fx.intExpr(se.High)
+	}
+	src, isList := fx.readOnly(e.Args[1])
+	if !isList {
+		t := fx.fresh()
+		fx.bindTo(t, "m_bytes "+src)
+		src = t
+	}
+	tn, ta := fx.fresh(), fx.fresh()
+	fx.bindTo("'("+tn+", "+ta+")", fmt.Sprintf("lift (v_copy_into %s %s %s %s)", a, lo, hi, src))
+	*fx.pre = append(*fx.pre, fx.store(se.X, ta)...)
+	return []string{tn}, true
 }
 
 // evaluate an argument whose value is discarded (fmt.Errorf): string(x) is looked through
@@ -1552,6 +1881,9 @@ func (fx *x3Fx) assignedIn(nodes []ast.Node, from, to token.Pos) []types.Object 
 			case *ast.IndexExpr:
 				if x3IsBytes(fx.typeOf(t.X)) {
 					return // a store through a slice changes the heap, not the variable
+				}
+				if _, _, isHeap := fx.heapArr(t.X); isHeap {
+					return
 				}
 				e = t.X
 				continue
@@ -1595,6 +1927,30 @@ func (fx *x3Fx) assignedIn(nodes []ast.Node, from, to token.Pos) []types.Object 
 				}
 			case *ast.IncDecStmt:
 				add(n.X)
+			case *ast.CallExpr:
+				// calls that update a variable by state passing: recv.m(...), X.Read(p), io.ReadFull(X, p),
+				// copy(a[i:j], src) into an array value
+				if se, ok := n.Fun.(*ast.SelectorExpr); ok {
+					if sel := info.Selections[se]; sel != nil && sel.Kind() == types.MethodVal {
+						if id, ok := se.X.(*ast.Ident); ok && fx.f.recv != nil && info.Uses[id] == fx.f.recv {
+							add(id)
+						} else if x3IoKind(sel.Recv()) == "reader" {
+							add(se.X)
+						}
+					} else if id, ok := se.X.(*ast.Ident); ok {
+						if pn, ok := info.Uses[id].(*types.PkgName); ok && pn.Imported().Path() == "io" && se.Sel.Name == "ReadFull" && len(n.Args) == 2 {
+							add(n.Args[0])
+						}
+					}
+				} else if id, ok := n.Fun.(*ast.Ident); ok && id.Name == "copy" && len(n.Args) == 2 {
+					if _, isB := info.Uses[id].(*types.Builtin); isB {
+						if sl, ok := n.Args[0].(*ast.SliceExpr); ok {
+							if _, _, isHeap := fx.heapArr(sl.X); !isHeap && x3IsByteArray(fx.typeOf(sl.X)) {
+								add(sl.X)
+							}
+						}
+					}
+				}
 			case *ast.RangeStmt:
 				if n.Tok == token.ASSIGN {
 					add(n.Key)
@@ -1681,6 +2037,13 @@ func (fx *x3Fx) store(l ast.Expr, v string) []string {
 			x.fail(l.Pos(), "assignment to a field of a value of type %s", sel.Recv().String())
 		}
 		s := x.useStruct(n, l.Pos())
+		if _, has := s.field(l.Sel.Name); !has {
+			x.fail(l.Pos(), "field %s of %s has a type outside the subset", l.Sel.Name, s.goName)
+		}
+		if h, _, isHeap := fx.heapArr(l); isHeap {
+			// assignment of an array value to a heap-resident array field: the cell is overwritten
+			return []string{fmt.Sprintf("_ <- m_copy_list %s %s (* array assignment *);;", h, v)}
+		}
 		parts := []string{"g3_mk_" + s.name}
 		for _, f := range s.fields {
 			if f.name == l.Sel.Name {
@@ -1691,6 +2054,10 @@ func (fx *x3Fx) store(l ast.Expr, v string) []string {
 		}
 		return []string{"let " + fx.names[o] + " := (" + strings.Join(parts, " ") + ") in"}
 	case *ast.IndexExpr:
+		if h, _, isHeap := fx.heapArr(l.X); isHeap {
+			pre, i := fx.capture(func() string { return fx.intExpr(l.Index) })
+			return append(pre, fmt.Sprintf("_ <- m_store %s %s %s;;", h, i, v))
+		}
 		if x3IsBytes(fx.typeOf(l.X)) {
 			// a store through a slice: into the heap
 			pre, bi := fx.captureN(func() []string { return []string{fx.expr(l.X), fx.intExpr(l.Index)} })
@@ -1972,7 +2339,9 @@ func (fx *x3Fx) seq(stmts []ast.Stmt, k func() string) string {
 					if j == len(cc.List)-1 {
 						return pre, c
 					}
+					fx.lazy++
 					pre2, c2 := caseCond(j + 1)
+					fx.lazy--
 					if len(pre2) == 0 {
 						return pre, "(" + c + " || " + c2 + ")"
 					}
@@ -2180,7 +2549,10 @@ func (x *x3) print() string {
 	w("   - binary.X.UintNN / PutUintNN are m_get_uint / m_put_uint big k (v_get_uint on an array value).\n")
 	w("   - w.Write(p) / r.Read(p) on io.Writer / io.Reader values are the oracles m_io_write / m_io_read.\n")
 	w("   - a method with a pointer receiver takes the receiver's value as its first parameter and returns\n")
-	w("     the updated value as an additional LAST result.\n")
+	w("     the updated value as an additional LAST result; recv.m(args) rebinds the receiver.  A []byte field is a\n")
+	w("     slice value; a [N]byte field of such an object is a slice HANDLE (array, off, N, N) of a heap cell.\n")
+	w("   - io.Reader values are stateful (GoMem.g_reader): Read / io.ReadFull (m_io_read_full) return the reader\n")
+	w("     after the call, stored back where it came from; io.Reader parameters are returned after the receiver.\n")
 	w("   - integers are Z with explicit wrap_u/wrap_s after + - * << unary - ^ and narrowing conversions;\n")
 	w("     int/uint are 64 bit; constants are folded by go/types and inlined (name in a comment).\n")
 	w("   - for loops are m_loop fuel (fun state => ...) state0 over the variables assigned in the loop;\n")
@@ -2202,6 +2574,9 @@ func (x *x3) print() string {
 		w("  | %s\n", e)
 	}
 	w(".\n\n")
+	if x.useEOF {
+		w("Definition g3_is_eof (e : g_error) : bool := match e with E_io_EOF => true | _ => false end.\n\n")
+	}
 	for _, n := range x.pvOrder {
 		w("Definition %s : list Z :=\n  %s.\n\n", n, x.pkgvars[n])
 	}
@@ -2209,7 +2584,13 @@ func (x *x3) print() string {
 		s := x.structs[n]
 		var fs []string
 		for _, f := range s.fields {
-			fs = append(fs, fmt.Sprintf("g3_%s_%s : %s", s.name, f.name, x.coqType(f.typ, token.NoPos)))
+			fs = append(fs, fmt.Sprintf("g3_%s_%s : %s", s.name, f.name, x.fieldCoqType(s, f)))
+		}
+		if s.obj && s.hasArr {
+			w("(* %s is used through a pointer receiver: its [N]byte fields are slice HANDLES (array, 0, N, N) of heap cells owned by the object *)\n", n)
+		}
+		if len(s.skipped) > 0 {
+			w("(* fields of %s left out (types outside the subset; any use is rejected): %s *)\n", n, strings.Join(s.skipped, ", "))
 		}
 		w("(* struct %s *)\nRecord g3_%s : Type := g3_mk_%s { %s }.\n\n", n, s.name, s.name, strings.Join(fs, "; "))
 	}
@@ -2243,7 +2624,7 @@ func (f *x3Func) paramDecls(x *x3) []string {
 	var out []string
 	used := map[string]bool{}
 	if f.recv != nil {
-		out = append(out, "(v_"+f.recv.Name()+" : "+x.coqType(f.recvT, token.NoPos)+")")
+		out = append(out, "(v_"+f.recv.Name()+" : "+x.recvCoqType(f)+")")
 		used["v_"+f.recv.Name()] = true
 	}
 	for i, v := range f.params {
@@ -2260,13 +2641,20 @@ func (f *x3Func) paramDecls(x *x3) []string {
 	return out
 }
 
+func (x *x3) recvCoqType(f *x3Func) string {
+	return "g3_" + x.structs[f.recvT.Obj().Pkg().Name()+"."+f.recvT.Obj().Name()].name
+}
+
 func (f *x3Func) retTypeStr(x *x3) string {
 	var ts []string
 	for _, t := range f.results {
 		ts = append(ts, x.coqType(t, token.NoPos))
 	}
 	if f.recv != nil {
-		ts = append(ts, x.coqType(f.recvT, token.NoPos))
+		ts = append(ts, x.recvCoqType(f))
+	}
+	for range f.readers {
+		ts = append(ts, "g_reader g_error")
 	}
 	switch len(ts) {
 	case 0:
